@@ -181,7 +181,6 @@ class Driver:
         self.kind = kind
         self.dialects = dialects
         self.expected = {}          # (descr, dialect) -> (sql, params) of the statement built afresh in one go
-        self.expected_key = {}      # descr -> cache key of the statement built afresh
         self.compiles = 0
 
     def fresh(self, descr, dname):
@@ -194,25 +193,25 @@ class Driver:
             v = self.expected[k] = compile_(self.kind, st, dname)
         return v
 
-    def fresh_key(self, descr):
-        v = self.expected_key.get(descr)
-        if v is None:
-            st = root(self.kind)
-            for m in descr:
-                st = apply(self.kind, st, m)
-            v = self.expected_key[descr] = (cache_key(self.kind, st),)
-        return v[0]
-
-    def _check_key(self, i):
-        """a compiled node's cache key (what an engine's compiled cache would look it up by) is that of its own derivation - not, e.g.,
-        a memoized key inherited from the statement it was derived from"""
-        if self.pickled[i]:
-            return None         # an unpickled statement owns copies of the tables: its key legitimately differs
-        got = cache_key(self.kind, self.nodes[i])
-        exp = self.fresh_key(self.descr[i])
-        if got != exp:
-            return "node %d %s has cache key %r, the same derivation built afresh has %r" % (
-                i + 1, "/".join(self.descr[i]) or "(root)", got, exp)
+    def _check_keys(self, flags):
+        """C02 clause 2 along derivation chains: two statements of the tree with EQUAL cache keys compile identically on every
+        dialect.  (This is how a memoized cache key inherited from the parent shows: the child would be served the parent's SQL by
+        an engine's compiled cache.)  Equality with the key of a freshly built statement is NOT demanded: compilation legitimately
+        leaves traces in the key - ORM compilation merges ORM compile options into statement._compile_options, the Oracle / MySQL
+        compilers fill in dialect_options defaults - none of which changes the SQL."""
+        seen = {}
+        for i, comp in enumerate(flags):
+            if not comp or self.pickled[i]:
+                continue        # (an unpickled statement owns copies of the tables: its key differs anyway)
+            k = cache_key(self.kind, self.nodes[i])
+            if k is None:
+                continue
+            j = seen.setdefault(k, i)
+            if j != i and self.descr[j] != self.descr[i]:
+                for d in self.dialects:
+                    if self.fresh(self.descr[i], d) != self.fresh(self.descr[j], d):
+                        return "nodes %d (%s) and %d (%s) have equal cache keys but compile differently on %s" % (
+                            j + 1, "/".join(self.descr[j]) or "(root)", i + 1, "/".join(self.descr[i]) or "(root)", d)
         return None
 
     def reset(self, state):
@@ -282,10 +281,7 @@ class Driver:
                     m = self._check_node(i, d)
                     if m:
                         return m
-                m = self._check_key(i)
-                if m:
-                    return m
-        return None
+        return self._check_keys([nd[3] for nd in to])
 
     def finish(self, state):
         for i in range(len(self.nodes)):
@@ -293,7 +289,5 @@ class Driver:
                 m = self._check_node(i, d)
                 if m:
                     return "drain: " + m
-            m = self._check_key(i)
-            if m:
-                return "drain: " + m
-        return None
+        m = self._check_keys([True] * len(self.nodes))
+        return ("drain: " + m) if m else None
